@@ -404,6 +404,7 @@ def main(argv):
             "distinct_values": {k: len(v) for k, v in sets.items() if not k.startswith("list:")},
             "observed_lists": {k[5:]: sorted(v)[:120] for k, v in sets.items() if k.startswith("list:")},
             "inconclusive_cases": len(inconclusive),
+            "inconclusive_reasons": [str(o.get("inconclusive"))[:400] for o in inconclusive[:5]],
             "child_deaths": len([c for c in all_crashes if c["type"] == "death"]),
             "race_reports_distinct": len(race_seen),
             "known_findings_reobserved": known_hits,
